@@ -165,13 +165,14 @@ pub fn build_crash_context(cc: &Value, report: &Value, tid: i32) -> (CrashContex
 }
 
 // ------------------------------------------------------------------ writer construction
-pub struct G { pub start: u64, pub end: u64, pub sys_end: u64, pub off: u64, pub name: Option<String>, pub perms: Vec<String>, pub exec: bool, pub privonly: bool }
+pub struct G { pub start: u64, pub end: u64, pub sys_end: u64, pub off: u64, pub name: Option<String>, pub perms: Vec<String>, pub exec: bool, pub privonly: bool, pub deleted: bool }
 /// mapping groups exactly as MapsAggregate (the model validated by C13) forms them
 pub fn mapping_groups(lines: &[crate::maps::Line]) -> Vec<G> {
     let mut gs: Vec<G> = Vec::new();
     for l in lines {
         let is_path = |n: &Option<String>| n.as_deref().map(|s| s.contains('/')).unwrap_or(false);
         let lname = l.name.as_ref().map(|n| n.strip_suffix(" (deleted)").unwrap_or(n).to_string());
+        let ldel = l.name.as_deref().map(|n| n.ends_with(" (deleted)")).unwrap_or(false);
         let lexec = l.perms.as_bytes().get(2) == Some(&b'x');
         let lpriv = l.perms == "---p";
         let n = gs.len();
@@ -179,7 +180,7 @@ pub fn mapping_groups(lines: &[crate::maps::Line]) -> Vec<G> {
             let contiguous = l.start == gs[n - 1].end;
             if contiguous && lname.is_some() && lname == gs[n - 1].name {
                 let g = &mut gs[n - 1];
-                g.end = l.end; g.sys_end = l.end; g.exec |= lexec; g.privonly &= lpriv; g.perms.push(l.perms.clone());
+                g.end = l.end; g.sys_end = l.end; g.exec |= lexec; g.privonly &= lpriv; g.deleted |= ldel; g.perms.push(l.perms.clone());
                 continue;
             } else if contiguous && gs[n - 1].exec && is_path(&gs[n - 1].name) && (l.off == 0 || l.off == gs[n - 1].end) && lpriv {
                 gs[n - 1].end = l.end;
@@ -191,11 +192,11 @@ pub fn mapping_groups(lines: &[crate::maps::Line]) -> Vec<G> {
             if is_path(&pp.name) && pp.end == p.start && p.off == 0 && p.privonly && p.name.is_none() && p.end == l.start && lname == pp.name {
                 gs.pop();
                 let g = gs.last_mut().unwrap();
-                g.end = l.end; g.sys_end = l.end; g.exec |= lexec; g.privonly &= lpriv; g.perms.push(l.perms.clone());
+                g.end = l.end; g.sys_end = l.end; g.exec |= lexec; g.privonly &= lpriv; g.deleted |= ldel; g.perms.push(l.perms.clone());
                 continue;
             }
         }
-        gs.push(G { start: l.start, end: l.end, sys_end: l.end, off: l.off, name: lname, perms: vec![l.perms.clone()], exec: lexec, privonly: lpriv });
+        gs.push(G { start: l.start, end: l.end, sys_end: l.end, off: l.off, name: lname, perms: vec![l.perms.clone()], exec: lexec, privonly: lpriv, deleted: ldel });
     }
     gs
 }
@@ -548,7 +549,8 @@ fn collect_oracles(report: &Value, pid: i32, blamed: i32, p: &mdparse::Parsed, i
             if let Some(name) = &g.name {
                 let path = name.clone();
                 let mem = target::read_mem(pid, g.start, ((g.sys_end - g.start) as usize).min(1 << 20)).unwrap_or_default();
-                let file = if path.starts_with('/') && g.off == 0 { std::fs::read(&path).ok() } else { None };
+                // a deleted mapping's path may have been taken by another file since: what is mapped can then only be read from memory
+                let file = if path.starts_with('/') && g.off == 0 && !g.deleted { std::fs::read(&path).ok() } else { None };
                 let idm = crate::elfgen::oracle_build_id(&mem).map(|x| mdparse::hexs(&x.0));
                 let idf = file.as_ref().and_then(|f| crate::elfgen::oracle_build_id(f)).map(|x| mdparse::hexs(&x.0));
                 let som = crate::elfgen::oracle_soname(&mem).map(|s| String::from_utf8_lossy(&s).into_owned());
